@@ -172,7 +172,7 @@ if (cmd === "replay") {
   const file = JSON.parse(fs.readFileSync(a1, "utf8"));
   if (file.kind === "watchloop") {
     // seeded: the history is a function of (seed, index); histories 0..index are run again
-    const r = watchLoopLeg(OUT, file.run_index + 1, file.root_seed);
+    const r = await watchLoopLeg(OUT, file.run_index + 1, file.root_seed);
     fs.rmSync(work, { recursive: true, force: true });
     if (r.violations.some((v) => v.class === file.violation_class)) {
       console.log(`VIOLATION property=C14 replay=${a1} class=${file.violation_class}`);
@@ -232,7 +232,7 @@ for (const [cls, { index, run }] of [...first.entries()].sort()) {
   lines.push(`VIOLATION property=C14 replay=${p} class=${cls}`);
 }
 // the watch loop of commandeer.ts, with controllable stand-ins for chokidar / commander / wasm
-const wl = watchLoopLeg(OUT, tier === "quick" ? 200 : 15000, ROOT);
+const wl = await watchLoopLeg(OUT, tier === "quick" ? 200 : 15000, ROOT);
 agg.watch_loop = { ...wl, what: "commandeer.ts + bundler.ts + bundle-to-disk.ts evaluated for real in watch mode (stand-ins: chokidar with recorded watchers, commander, the wasm package with recorded calls); seeded histories of saves, change events, changing read sets and failing builds; W1 change hands the current content over first, W2 then builds, W3 every file a build reads is watched, W4 the output on disk is the last successful build" };
 for (const v of wl.violations) {
   const file = { engine: "hostleg", kind: "watchloop", property: "C14", violation_class: v.class, root_seed: ROOT, run_index: v.detail.history ?? 0, observed: v.detail };
